@@ -318,7 +318,19 @@ class OPEngine:
 
     # ------------------------------------------------------------------
     def run(self, max_rounds: int = 6):
-        funcs = [f for f in self.sm.all_funcs() if f.rel in self.scope]
+        from .inline import inlined
+
+        funcs = []
+        for f in self.sm.all_funcs():
+            if f.rel not in self.scope:
+                continue
+            # a function that defines local helpers is analysed with them expanded (what the helper does with a
+            # captured list is then seen at the call site, inside the caller's loops)
+            if any(isinstance(n, ast.FunctionDef) and n is not f.node for n in ast.walk(f.node)):
+                g = inlined(self.sm, f)
+                funcs.append(g)
+            else:
+                funcs.append(f)
         for rnd in range(max_rounds):
             before = {k: (v.ret, tuple(sorted(v.sink_params))) for k, v in self.summaries.items()}
             before_attr = dict(self.attr_taint)
